@@ -2,6 +2,7 @@ package props
 
 import (
 	"fmt"
+	"os"
 	"strings"
 	"testing"
 	"time"
@@ -28,6 +29,8 @@ type UpdCase struct {
 	// Twin: name of a second file below rules/ that also matches the rule's prefix (a stale copy): the rules
 	// file is ambiguous, update must fail and write nothing
 	Twin string `json:"twin,omitempty"`
+	// AsmLink: regex-assembly is a symbolic link to a directory elsewhere (a shared checkout of the assembly files)
+	AsmLink bool `json:"asm_link,omitempty"`
 }
 
 func (c UpdCase) Arg() string {
@@ -96,6 +99,10 @@ func genUpdCase(t *rapid.T, withEdit bool) UpdCase {
 	if rf.TrailBlank > 0 {
 		lab["blank-lines-at-end-of-file"] = true
 	}
+	if rapid.IntRange(0, 9).Draw(t, "asmlink") == 0 {
+		c.AsmLink = true
+		lab["regex-assembly-is-a-symbolic-link"] = true
+	}
 	if !withEdit && rapid.IntRange(0, 9).Draw(t, "twin") == 0 {
 		c.Twin = rapid.SampledFrom([]string{"OLD-932-APPLICATION-ATTACK-X.conf", "REQUEST-932-X.conf.orig", "zz-932-copy", "REQUEST-932-APPLICATION-ATTACK-RCE.conf~"}).Draw(t, "twinname")
 		if c.Twin == rf.Name {
@@ -151,6 +158,14 @@ func setupUpd(c UpdCase) *updEnv {
 	root := sb.Path("crs")
 	if err := tree.Write(root); err != nil {
 		panic(err)
+	}
+	if c.AsmLink {
+		if err := os.Rename(root+"/regex-assembly", sb.Path("shared-assembly")); err != nil {
+			panic(err)
+		}
+		if err := os.Symlink("../shared-assembly", root+"/regex-assembly"); err != nil {
+			panic(err)
+		}
 	}
 	cli.Freeze(root)
 	return &updEnv{sb: sb, root: root, rulesPath: "rules/" + c.Rules.Name, original: text, spans: spans}
